@@ -80,6 +80,10 @@ EXPRS = [
     # scalars that are not builtin numbers (taken out of numpy arrays)
     ["sub", ["lmul", {"np": "int64", "v": 2}, BC], A],
     ["add", A, ["rmul", BC, {"np": "float64", "v": 0.25}]],
+    # both operands cover the SAME station set, listed in different orders, with coefficients that are not symmetric
+    # under that reordering (alignment is by station, not by position)
+    ["sub", D2, ["atom", "dict", {"A": 3, "B": 5, "C": 7}]],
+    ["add", CA, ["lmul", 2, D1]],
 ]
 
 
